@@ -19,6 +19,7 @@ import ast
 from ..engine import Ctx
 from ..report import Report
 from ..rules import ga
+from ..rules import q
 from ..rules import wf
 from ..rules import wfinterp as W
 from ..source import AnalysisError
@@ -147,9 +148,22 @@ def ordered(ctx: Ctx, rep: Report) -> None:
     # outs / datas appended in the order of results; zipped with the inputs
     t = norm(f.node)
     rep.count(2)
+    g = ctx.cfg(f)
+    lp = [n for n in g.nodes if n.kind == 'for' and norm(
+        n.stmt.iter) == 'results' and norm(n.stmt.target) == 'result']
+    ok = len(lp) == 1
+    if ok:
+        body = g.in_loop_body(lp[0])
+        st = [b for b, l in g.succ[lp[0].id] if l == 'iter'][0]
+        unpack = [n for n in g.nodes if n.id in body and isinstance(
+            n.stmt, ast.Assign) and norm(n.stmt.targets[0]) == '(out, data)'
+            and norm(n.stmt.value) == 'result']
+        ok = len(unpack) == 1 and all(
+            g.must(q.has_call(f'{lst}.append', [v]), start=st,
+                   ends={lp[0].id})
+            for lst, v in (('outs', 'out'), ('datas', 'data')))
     rep.check(
-        'for result in results: out, data = result outs.append(out) '
-        'datas.append(data)' in t, O, 'compile:outs', f.path, f.lineno,
+        ok, O, 'compile:outs', f.path, f.lineno,
         'outputs and pass data are collected in result order',
         'outs/datas are not appended in the order of `results`', key='outs',
     )
